@@ -5,9 +5,12 @@ Import ListNotations.
 From PF Require Import Arr Net Elev ElevSpec DigSpec.
 Local Open Scope Z_scope.
 
+Section C.
+Variable cost : list Z -> mods -> Z.
+
 (* ---------- length ---------- *)
 
-Lemma fix_pit_length e im imax i zmin zmax : length (fix_pit e im imax i zmin zmax) = length e.
+Lemma fix_pit_length e im imax i zmin zmax : length (fix_pit cost e im imax i zmin zmax) = length e.
 Proof.
   unfold fix_pit.
   destruct (cost e (map (fun k => (k, Z.max zmax (zn e k))) (rng 0 imax)) <?
@@ -16,7 +19,7 @@ Proof.
   - destruct (fold_left _ _ _) as [[[a b] c] mb]. apply apply_mods_length.
 Qed.
 
-Lemma fix_step_length n s i : length (fe (fix_step n s i)) = length (fe s).
+Lemma fix_step_length n s i : length (fe (fix_step cost n s i)) = length (fe s).
 Proof.
   unfold fix_step.
   destruct (zn (fe s) i >=? fzmax s);
@@ -24,11 +27,11 @@ Proof.
   destruct (fimin s); auto using fix_pit_length.
 Qed.
 
-Theorem fix1d_length e : length (fix1d e) = length e.
+Theorem fix1d_length e : length (fix1d cost e) = length e.
 Proof.
   unfold fix1d. destruct e as [|e0 t]; auto.
   set (n := length (e0 :: t)).
-  assert (G : forall l s, length (fe (fold_left (fix_step n) l s)) = length (fe s)).
+  assert (G : forall l s, length (fe (fold_left (fix_step cost n) l s)) = length (fe s)).
   { induction l as [|i l IH]; intros s; simpl; auto. rewrite IH. apply fix_step_length. }
   rewrite G. simpl. rewrite map_length. reflexivity.
 Qed.
@@ -47,14 +50,14 @@ Proof. induction l as [|h t IH]; intros H; simpl; auto. rewrite IH by (intros x 
   f_equal. specialize (H h (or_introl eq_refl)). lia. Qed.
 
 Lemma fix_step_quiet n s a e : fe s = e -> fimin s = None -> zn e a <= fz1 s ->
-  fe (fix_step n s a) = e /\ fimin (fix_step n s a) = None /\ fz1 (fix_step n s a) = zn e a.
+  fe (fix_step cost n s a) = e /\ fimin (fix_step cost n s a) = None /\ fz1 (fix_step cost n s a) = zn e a.
 Proof.
   intros Hfe Him Hle. unfold fix_step. rewrite Hfe, Him.
   assert (Hg : (zn e a >? fz1 s) = false) by (rewrite Z.gtb_ltb; apply Z.ltb_ge; lia).
   rewrite Hg. destruct (zn e a >=? fzmax s); simpl; auto.
 Qed.
 
-Theorem fix1d_identity_on_sorted e : nonincr e -> fix1d e = e.
+Theorem fix1d_identity_on_sorted e : nonincr e -> fix1d cost e = e.
 Proof.
   intros Hn. unfold fix1d. destruct e as [|e0 t]; auto.
   set (e := e0 :: t) in *. set (n := length e).
@@ -64,7 +67,7 @@ Proof.
   rewrite He1.
   (* invariant: nothing was touched, no pit was seen, z1 is the previous value *)
   assert (G : forall len a s, (a + len <= n)%nat -> fe s = e -> fimin s = None -> fz1 s = zn e (a - 1) ->
-            fe (fold_left (fix_step n) (seq a len) s) = e).
+            fe (fold_left (fix_step cost n) (seq a len) s) = e).
   { induction len as [|len IH]; intros a s Hb Hfe Him Hz1; simpl; auto.
     assert (Hle : zn e a <= fz1 s) by (rewrite Hz1; apply nonincr_le; auto; unfold n in *; lia).
     destruct (fix_step_quiet n s a e Hfe Him Hle) as [H1 [H2 H3]].
@@ -90,7 +93,7 @@ Proof.
 Qed.
 
 Definition kb (l : list Z) : bool :=
-  let r := fix1d l in
+  let r := fix1d cost l in
   let lo := fold_right Z.min (zn l 0) l in
   let hi := fold_right Z.max (zn l 0) l in
   (length r =? length l)%nat && nonincrb r && (zn r (length l - 1) =? zn l (length l - 1)) &&
@@ -121,9 +124,9 @@ Proof. intros Hd. induction l as [|h t IH]; simpl; intros H; [auto|].
   assert (h <= hi) by (apply H; auto). assert (fold_right Z.max d t <= hi) by (apply IH; intros; apply H; auto). lia. Qed.
 
 Lemma kb_sound l : l <> [] -> kb l = true ->
-  length (fix1d l) = length l /\ nonincr (fix1d l) /\
-  zn (fix1d l) (length l - 1) = zn l (length l - 1) /\
-  (forall lo hi, within lo hi l -> within lo hi (fix1d l)).
+  length (fix1d cost l) = length l /\ nonincr (fix1d cost l) /\
+  zn (fix1d cost l) (length l - 1) = zn l (length l - 1) /\
+  (forall lo hi, within lo hi l -> within lo hi (fix1d cost l)).
 Proof.
   intros Hne H. unfold kb in H. rewrite !andb_true_iff in H. destruct H as [[[H1 H2] H3] H4].
   apply Nat.eqb_eq in H1. apply nonincrb_nonincr in H2. apply Z.eqb_eq in H3.
@@ -138,9 +141,9 @@ Qed.
 
 Theorem bounded_lift vals L : bounded_ok vals L = true ->
   forall l, l <> [] -> (length l <= L)%nat -> Forall (fun x => In x vals) l ->
-  length (fix1d l) = length l /\ nonincr (fix1d l) /\
-  zn (fix1d l) (length l - 1) = zn l (length l - 1) /\
-  (forall lo hi, within lo hi l -> within lo hi (fix1d l)).
+  length (fix1d cost l) = length l /\ nonincr (fix1d cost l) /\
+  zn (fix1d cost l) (length l - 1) = zn l (length l - 1) /\
+  (forall lo hi, within lo hi l -> within lo hi (fix1d cost l)).
 Proof.
   intros Hb l Hne HL Hv. apply kb_sound; auto.
   unfold bounded_ok in Hb. rewrite forallb_forall in Hb.
@@ -148,16 +151,18 @@ Proof.
   apply in_lists. auto.
 Qed.
 
-(* every profile of length <= 7 over {0,1,2,3,4}: 97 656 profiles *)
-Lemma bounded_7_5 : bounded_ok [0; 1; 2; 3; 4] 7 = true.
+End C.
+
+(* every profile of length <= 7 over {0,1,2,3,4}: 97 656 profiles (exact cost) *)
+Lemma bounded_7_5 : bounded_ok cost_exact [0; 1; 2; 3; 4] 7 = true.
 Proof. vm_compute. reflexivity. Qed.
 
 Theorem fix1d_contract_bounded l : l <> [] -> (length l <= 7)%nat -> Forall (fun x => 0 <= x <= 4) l ->
-  length (fix1d l) = length l /\ nonincr (fix1d l) /\
-  zn (fix1d l) (length l - 1) = zn l (length l - 1) /\
-  (forall lo hi, within lo hi l -> within lo hi (fix1d l)).
+  length (fix1d cost_exact l) = length l /\ nonincr (fix1d cost_exact l) /\
+  zn (fix1d cost_exact l) (length l - 1) = zn l (length l - 1) /\
+  (forall lo hi, within lo hi l -> within lo hi (fix1d cost_exact l)).
 Proof.
-  intros Hne HL Hv. apply (bounded_lift [0; 1; 2; 3; 4] 7 bounded_7_5); auto.
+  intros Hne HL Hv. apply (bounded_lift cost_exact [0; 1; 2; 3; 4] 7 bounded_7_5); auto.
   eapply Forall_impl; [|exact Hv]. intros x Hx. simpl. cbv beta in Hx.
   assert (x = 0 \/ x = 1 \/ x = 2 \/ x = 3 \/ x = 4) by lia. intuition.
 Qed.
